@@ -41,7 +41,7 @@ def systems(tier):
                         geos = [dict(kind=kind, resname=rn, start=rng[0], stop=rng[1], inout=inout, centre=c, params=params) for rn in names]
                         out.append(dict(types=[typ], molecules=[(typ, 1)], box=BOX, grid=GRID, geos=geos, kwargs=dict(nrewind=2, maxiter=4)))
     for normal, ang in itertools.product(((1.0, 0.0, 0.0), (0.0, 0.0, 1.0)), (50.0, 95.0)):
-        for gridsel in (GRID, [GRID[4], GRID[5]] + GRID[:2]):
+        for gridsel in (GRID, [GRID[4], GRID[5]] + GRID[:2], [GRID[5], GRID[4]] + GRID[:2], [[2.0, 2.0, 0.25], [2.0, 2.0, 3.75]] + GRID[:2]):
             out.append(dict(types=["CH5"], molecules=[("CH5", 1)], box=BOX, grid=gridsel,
                             rw=dict(resname="S", start=2, stop=6, normal=normal, angle=ang), kwargs=dict(nrewind=2, maxiter=4)))
     for typ in ("CH4", "CH5", "CH6"):
@@ -228,14 +228,14 @@ def run_case(case):
     bounds = {"vec": d, "grid": 1, "env": 1, "*": d}
     evals, keys, viols, traces, ntrans = 0, set(), [], set(), 0
     stats = dict(executions=0, horizon_cuts=0, restraint_rejections=0, unowned_random_draws=0)
-    for prefix, ch, res in explore(lambda c: run_exec(sysd, c), bounds, stats=stats, max_execs=700):
+    for prefix, ch, res in explore(lambda c: run_exec(sysd, c), bounds, stats=stats, max_execs=1500):
         evals += 1
         ntrans += len(ch.trace)
         stats["executions"] += 1
         stats["unowned_random_draws"] += res["unowned"]
         stats["horizon_cuts"] += int(res["horizon"])
         v, rej = judge(sysd, res, ch.choices())
-        nvec = sum(1 for t in ch.trace if t[0] == "vec")
+        nvec = sum(1 for t in ch.trace if t[0] in ("vec", "vec-retry"))
         nacc = sum(1 for e in res["events"] if e[0] == "step-result" and e[3])
         stats["restraint_rejections"] += max(0, nvec - nacc)
         if len(viols) < 20:
@@ -246,7 +246,7 @@ def run_case(case):
             keys.add(f"{case['idx']}:{tr}")
     stats["states"] = len(traces)
     stats["transitions"] = ntrans
-    stats["systems_capped_at_700_executions"] = int(evals >= 700)
+    stats["systems_capped_at_1500_executions"] = int(evals >= 1500)
     return dict(evals=evals, keys=sorted(keys), violations=viols, stats=stats,
                 sample={k: sysd.get(k) for k in ("types", "geos", "rw", "dist", "cyc", "pers", "kwargs") if sysd.get(k)})
 
